@@ -31,6 +31,7 @@ type EncSpec struct {
 	Flush  []int     `json:"flush"` // data offsets at which Flush is called
 	Dict   *DataSpec `json:"dict"`
 	Hdr    *GzHeader `json:"hdr"`
+	Reuse  bool      `json:"reuse"` // write this member with the Writer of the previous one (Reset), if the setting is the same
 	FHCRC  bool      `json:"fhcrc"` // gzip: add the optional header CRC16 (no Go writer emits it; readers must check it)
 }
 
@@ -52,7 +53,70 @@ type RStream struct {
 	Cut   bool       `json:"cut"` // the mutations cut a valid container inside a member
 }
 
+// encodeAll concatenates the encodings; members marked Reuse share the previous member's Writer.
+func encodeAll(list []EncSpec) ([]byte, error) {
+	var out []byte
+	var prev *wUnderTest
+	var prevSet WSetting
+	for _, e := range list {
+		set := WSetting{Impl: e.Impl, Kind: e.Kind, Level: e.Level, Window: e.Window, Dict: e.Dict}
+		if e.Reuse && prev != nil && set.Impl == prevSet.Impl && set.Kind == prevSet.Kind && set.Level == prevSet.Level && e.Dict == nil && !e.FHCRC {
+			var buf bytes.Buffer
+			prev.reset(&buf)
+			if err := setGzHeader(prev.w, e.Hdr); err != nil {
+				return nil, err
+			}
+			data := e.Data.Bytes()
+			if _, err := prev.w.Write(data); err != nil {
+				return nil, err
+			}
+			if err := prev.w.Close(); err != nil {
+				return nil, err
+			}
+			out = append(out, buf.Bytes()...)
+			continue
+		}
+		x, u, err := encodeKeep(e)
+		if err != nil {
+			return nil, err
+		}
+		out = append(out, x...)
+		prev, prevSet = u, set
+	}
+	return out, nil
+}
+
+// setGzHeader sets the user-visible header fields of a gzip Writer (after Reset they are back to the default).
+func setGzHeader(w writerAPI, h *GzHeader) error {
+	if h == nil {
+		return nil
+	}
+	switch z := w.(type) {
+	case *fggzip.Writer:
+		z.Name, z.Comment, z.Extra, z.OS = h.Name, h.Comment, h.Extra, h.OS
+		if h.ModTime != 0 {
+			z.ModTime = time.Unix(h.ModTime, 0)
+		}
+	case *stdgzip.Writer:
+		z.Name, z.Comment, z.Extra, z.OS = h.Name, h.Comment, h.Extra, h.OS
+		if h.ModTime != 0 {
+			z.ModTime = time.Unix(h.ModTime, 0)
+		}
+	}
+	return nil
+}
+
 func encode(e EncSpec) ([]byte, error) {
+	b, _, err := encodeKeep(e)
+	return b, err
+}
+
+func encodeKeep(e EncSpec) ([]byte, *wUnderTest, error) {
+	b, u, err := encodeInner(e)
+	return b, u, err
+}
+
+func encodeInner(e EncSpec) ([]byte, *wUnderTest, error) {
 	var buf bytes.Buffer
 	var dict []byte
 	if e.Dict != nil {
@@ -64,7 +128,7 @@ func encode(e EncSpec) ([]byte, error) {
 	}
 	u, err := newWriter(set, &buf, dict)
 	if err != nil {
-		return nil, err
+		return nil, nil, err
 	}
 	data := e.Data.Bytes()
 	pos := 0
@@ -74,19 +138,19 @@ func encode(e EncSpec) ([]byte, error) {
 		}
 		if f >= pos {
 			if _, err := u.w.Write(data[pos:f]); err != nil {
-				return nil, err
+				return nil, nil, err
 			}
 			pos = f
 			if err := u.w.Flush(); err != nil {
-				return nil, err
+				return nil, nil, err
 			}
 		}
 	}
 	if _, err := u.w.Write(data[pos:]); err != nil {
-		return nil, err
+		return nil, nil, err
 	}
 	if err := u.w.Close(); err != nil {
-		return nil, err
+		return nil, nil, err
 	}
 	out := buf.Bytes()
 	if e.FHCRC && e.Kind == "gzip" {
@@ -98,7 +162,7 @@ func encode(e EncSpec) ([]byte, error) {
 			out = append(hdr, out[n:]...)
 		}
 	}
-	return out, nil
+	return out, &u, nil
 }
 
 // Build materialises the stream.
@@ -132,13 +196,11 @@ func (s RStream) build(origin *[]byte) ([]byte, error) {
 		}
 		b = x
 	default:
-		for _, e := range s.Enc {
-			x, err := encode(e)
-			if err != nil {
-				return nil, fmt.Errorf("encode: %v", err)
-			}
-			b = append(b, x...)
+		x, err := encodeAll(s.Enc)
+		if err != nil {
+			return nil, fmt.Errorf("encode: %v", err)
 		}
+		b = x
 	}
 	b = append([]byte{}, b...)
 	for i, m := range s.Mut {
